@@ -83,11 +83,11 @@ def snip_text(s: dict[str, Any]) -> str:
 
 def parse(text: str) -> Any:
     from xdsl.context import Context
-    from xdsl.dialects import builtin, riscv, riscv_func, rv32
+    from xdsl.dialects import builtin, riscv, riscv_cf, riscv_func, rv32
     from xdsl.parser import Parser
 
     ctx = Context()
-    for d in (builtin.Builtin, riscv.RISCV, riscv_func.RISCV_Func, rv32.RV32):
+    for d in (builtin.Builtin, riscv.RISCV, riscv_func.RISCV_Func, rv32.RV32, riscv_cf.RISCV_Cf):
         ctx.load_dialect(d)
     m = Parser(ctx, text).parse_module()
     m.verify()
@@ -496,3 +496,98 @@ def run_prog(prog: list[tuple[str, list[Any]]], regs: dict[str, int], rets: list
     except rv.Trap as e:
         return ("trap", str(e))
     return ("ok", [m.get(r) for r in rets], sorted(m.mem.items()))
+
+
+# ------------------------------------------------------------------------------------------------
+# riscv_cf: conditional branches with constant operands, block-structured programs
+# ------------------------------------------------------------------------------------------------
+
+BR_OPS = ["beq", "bne", "blt", "bge", "bltu", "bgeu"]
+BR_PAIRS = [(0, 0), (1, 1), (-1, -1), (5, 5), (2147483647, 2147483647), (-2147483648, -2147483648), (2048, 2048),
+            (0, 1), (1, 0), (-1, 0), (0, -1), (-1, 1), (1, -1), (2, 3), (3, 2), (-3, -2), (-2, -3),
+            (-2147483648, 2147483647), (2147483647, -2147483648), (2147483648, 2147483647), (4294967295, 0), (0, 4294967295),
+            (4294967295, -1), (2147483648, -2147483648), (-2147483648, 0), (2147483647, 0), (2047, 2048), (-2048, -2049)]
+
+
+def _rt(reg: str | None) -> str:
+    return "!riscv.reg" if reg is None else f"!riscv.reg<{reg}>"
+
+
+def cf_branch_text(op: str, a: tuple[Any, ...], b: tuple[Any, ...], alloc: bool, same_args: bool = False) -> str:
+    """`a`, `b`: ("li", v) | ("mv", v) | ("zero",) | ("arg", "x"|"y").  then → x ^ 111, else → y + 222
+    (same value passed on both edges when `same_args`)."""
+    R = (lambda n: _rt(n)) if alloc else (lambda n: _rt(None))
+    tx, ty = R("a0"), R("a1")
+    lines: list[str] = []
+    names: list[tuple[str, str]] = []
+    for k, (spec, treg, treg2) in enumerate(((a, "t0", "t2"), (b, "t1", "t3"))):
+        nm = f"%p{k}"
+        if spec[0] == "li":
+            lines.append(f"    {nm} = rv32.li {spec[1]} : {R(treg)}")
+            names.append((nm, R(treg)))
+        elif spec[0] == "mv":
+            lines.append(f"    {nm}_ = rv32.li {spec[1]} : {R(treg2)}")
+            lines.append(f"    {nm} = riscv.mv {nm}_ : ({R(treg2)}) -> {R(treg)}")
+            names.append((nm, R(treg)))
+        elif spec[0] == "zero":
+            lines.append(f"    {nm} = rv32.get_register : !riscv.reg<zero>")
+            names.append((nm, "!riscv.reg<zero>"))
+        else:
+            names.append(("%" + spec[1], tx if spec[1] == "x" else ty))
+    (p, pt), (q, qt) = names
+    ea, eat = ("%x", tx) if same_args else ("%y", ty)
+    tj = R("a0")
+    body = "\n".join(lines)
+    return (f"builtin.module {{\n  riscv_func.func @f(%x : {tx}, %y : {ty}) -> ({tj}) {{\n{body}\n"
+            f"    riscv_cf.{op} {p} : {pt}, {q} : {qt}, ^then(%x : {tx}), ^else({ea} : {eat})\n"
+            f"  ^else(%e : {eat}):\n    %r1 = riscv.addi %e, 222 : ({eat}) -> {tj}\n    riscv_cf.j ^join(%r1 : {tj})\n"
+            f"  ^then(%t : {tx}):\n    riscv.label \"then\"\n    %r2 = riscv.xori %t, 111 : ({tx}) -> {tj}\n    riscv_cf.branch ^join(%r2 : {tj})\n"
+            f"  ^join(%j : {tj}):\n    riscv.label \"join\"\n    riscv_func.return %j : {tj}\n  }}\n}}\n")
+
+
+def cf_loop_text(lb: int, ub: int, st: int, guard: str = "bge", back: str = "blt") -> str:
+    """the block structure convert-riscv-scf-to-riscv-cf produces for a loop, with constant bounds"""
+    T = "!riscv.reg"
+    return (f"builtin.module {{\n  riscv_func.func @f(%x : {T}, %y : {T}) -> ({T}) {{\n"
+            f"    %lb = rv32.li {lb} : {T}\n    %ub = rv32.li {ub} : {T}\n    %st = rv32.li {st} : {T}\n"
+            f"    %iv0 = riscv.mv %lb : ({T}) -> {T}\n"
+            f"    riscv_cf.{guard} %iv0 : {T}, %ub : {T}, ^end(%iv0 : {T}, %x : {T}), ^body(%iv0 : {T}, %x : {T})\n"
+            f"  ^body(%i : {T}, %acc : {T}):\n    riscv.label \"body\"\n"
+            f"    %acc2 = riscv.add %acc, %y : ({T}, {T}) -> {T}\n    %acc3 = riscv.xori %acc2, 5 : ({T}) -> {T}\n"
+            f"    %i2 = riscv.add %i, %st : ({T}, {T}) -> {T}\n"
+            f"    riscv_cf.{back} %i2 : {T}, %ub : {T}, ^body(%i2 : {T}, %acc3 : {T}), ^end(%i2 : {T}, %acc3 : {T})\n"
+            f"  ^end(%ie : {T}, %r : {T}):\n    riscv.label \"end\"\n    riscv_func.return %r : {T}\n  }}\n}}\n")
+
+
+def cf_cases(rng: Any, nrandom: int) -> list[dict[str, Any]]:
+    """every conditional branch × every boundary pair (both li), plus the other constant shapes,
+    allocated variants, half-constant and register-only branches, constant loops"""
+    out: list[dict[str, Any]] = []
+    for op in BR_OPS:
+        for a, b in BR_PAIRS:
+            out.append({"leg": "A", "kind": "cf-branch", "op": op, "mlir": cf_branch_text(op, ("li", a), ("li", b), False)})
+        for a, b in ((0, 0), (3, 3), (-1, -1), (0, 1), (1, 0), (-1, 0)):
+            out.append({"leg": "A", "kind": "cf-branch", "op": op, "mlir": cf_branch_text(op, ("mv", a), ("li", b), True)})
+            out.append({"leg": "A", "kind": "cf-branch", "op": op, "mlir": cf_branch_text(op, ("li", a), ("mv", b), False, same_args=True)})
+        for v in (0, 1, -1):
+            out.append({"leg": "A", "kind": "cf-branch", "op": op, "mlir": cf_branch_text(op, ("zero",), ("li", v), False)})
+            out.append({"leg": "A", "kind": "cf-branch", "op": op, "mlir": cf_branch_text(op, ("li", v), ("zero",), True)})
+        out.append({"leg": "A", "kind": "cf-branch", "op": op, "mlir": cf_branch_text(op, ("zero",), ("zero",), False)})
+        out.append({"leg": "A", "kind": "cf-branch", "op": op, "mlir": cf_branch_text(op, ("arg", "x"), ("li", 3), False)})
+        out.append({"leg": "A", "kind": "cf-branch", "op": op, "mlir": cf_branch_text(op, ("arg", "x"), ("arg", "x"), True)})
+        out.append({"leg": "A", "kind": "cf-branch", "op": op, "mlir": cf_branch_text(op, ("arg", "x"), ("arg", "y"), False)})
+    for lb, ub, st in ((0, 3, 1), (3, 3, 1), (0, 0, 1), (4, 2, 1), (1, 8, 3), (-2, 3, 2), (-1, -1, 1), (5, 6, 1), (2147483646, 2147483647, 1)):
+        out.append({"leg": "A", "kind": "cf-loop", "op": "bge/blt", "mlir": cf_loop_text(lb, ub, st)})
+    for guard, back in (("bgeu", "bltu"), ("beq", "bne")):
+        for lb, ub in ((0, 3), (3, 3), (2, 5)):
+            out.append({"leg": "A", "kind": "cf-loop", "op": f"{guard}/{back}", "mlir": cf_loop_text(lb, ub, 1, guard, back)})
+    for _ in range(nrandom):
+        op = rng.choice(BR_OPS)
+        if rng.random() < 0.5:
+            v = rng.choice([0, 1, -1, 7, 2147483647, -2147483648, rng.randint(-2**31, 2**31 - 1)])
+            a, b = v, v + rng.choice([0, 0, 1, -1]) if abs(v) < 2**31 - 1 else v
+        else:
+            a, b = rng.randint(-2**31, 2**32 - 1), rng.randint(-2**31, 2**32 - 1)
+        shape = lambda v: (rng.choice(["li", "li", "mv"]), v)  # noqa: E731
+        out.append({"leg": "A", "kind": "cf-branch", "op": op, "mlir": cf_branch_text(op, shape(a), shape(b), rng.random() < 0.4, rng.random() < 0.2)})
+    return out
